@@ -273,6 +273,9 @@ def eval_token_stream(case):
     order = case["order"]
     names = [n for _, n in sorted(zip((order * len(names))[:len(names)], names), key=lambda kv: kv[0])]
     prods = {"S": [("ITEM", "S"), ()], "ITEM": [(n,) for n in names]}
+    # skipped token names: the default (SPACE, COMMENT) or additionally a type that is also a keyword source - the
+    # keyword tokens made from it are tokens of their own and are not skipped
+    skip = {"SPACE", "COMMENT"} | ({case["skip"]} if case.get("skip") in names else set())
     text = case["text"]
     f = []
     classes = set(["token_stream"])
@@ -283,6 +286,7 @@ def eval_token_stream(case):
     for smart in (True, False):
         try:
             parser = L.LLParser(gk.TOKENIZER2, productions=prods, synonyms=syn or None, keywords=kws or None, start_symbol_name="S",
+                                skip_tokens=(None if skip == {"SPACE", "COMMENT"} and case.get("skip") is None else skip),
                                 smart_factorization=smart)
         except Exception as e:   # noqa
             f.append(("token_stream_constructor_raises_" + type(e).__name__, f"syn={syn!r} kw={kws!r}: {e}"))
@@ -301,7 +305,9 @@ def eval_token_stream(case):
         if expected is None:
             f.append(("untokenizable_text_accepted", f"text={text!r}"))
             continue
-        toks = [(n, v) for n, v in expected if n not in ("SPACE", "COMMENT")]
+        toks = [(n, v) for n, v in expected if n not in skip]
+        if len(skip) > 2:
+            classes.add("extra_skipped_token_type")
         conc = {"prods": {"S": [["ITEM", "S"], []], "ITEM": [[n] for n in names]}, "start": "S"}
         ff = check_tree(root, conc, toks)
         f.extend((b, d + f"; text={text!r} syn={syn!r} kw={kws!r}") for b, d in ff)
@@ -332,7 +338,8 @@ def st_token_stream_case(draw):
     if draw(st.integers(0, 9)) == 0:
         text += draw(st.sampled_from(["$", "?", " ~"]))
     return {"text": text, "syn": draw(st.integers(0, 3)), "kw": draw(st.integers(0, 4)),
-            "order": draw(st.lists(st.integers(0, 9), min_size=5, max_size=5)), "as_list": draw(st.booleans())}
+            "order": draw(st.lists(st.integers(0, 9), min_size=5, max_size=5)), "as_list": draw(st.booleans()),
+            "skip": draw(st.sampled_from([None, None, "", "WORD", "NUM", "LABEL", "ATWORD", ","]))}
 
 
 def parts(tier):
